@@ -70,6 +70,8 @@ CHEAP = [_w(t) for t in [
     'SELECT a FROM t WHERE b = 1 FOR UPDATE', 'OPEN c FOR SELECT a FROM t', 'OPEN c', 'FETCH c INTO v', 'CLOSE c', 'DECLARE c CURSOR FOR SELECT a FROM t',
     'DECLARE CONTINUE HANDLER FOR NOT FOUND SET v = 1', 'DECLARE w int',
     'DROP TABLE IF EXISTS t3', 'CREATE TABLE IF NOT EXISTS t3 ( a int )', 'DROP VIEW IF EXISTS v',
+    # fields / columns named like block keywords: behind a dot they are names (NEW.end, r.loop), never openers or closers
+    'SET new.end = old.begin + 1', 'v := r.end - r.loop', 'SELECT x.end , x.if FROM x WHERE x.while = 1', 'UPDATE t SET a = 1 WHERE t.end < t.for', 'w := old.declare',
     'INSERT INTO t VALUES ( 1 ) ON conflict ( a ) DO UPDATE SET b = 2', 'INSERT INTO t VALUES ( 1 , 2 ) ON CONFLICT DO NOTHING', 'DO sleep ( 1 )',
 ]]
 
